@@ -5,8 +5,7 @@ list views' reformat_when_finished(), lexing real output back into the pieces of
 Expected texts are built from the PIECES TLC printed (CASE lines) or are decided by TLC (TraceStockFormat)."""
 import random
 
-import core
-from comment_x17 import BOUNDARY, heavy_len, tail_char, lines_keepends, clip
+from comment_x17 import BOUNDARY, heavy_len, tail_char, lines_keepends, clip, from_repo
 
 WORDS = ["foo", "libbar-dev", "amd64", "${misc:Depends}", "a", "x1", "(>=", "1.0)", "kfreebsd-any", "b|c", "[linux-any]", "<!nocheck>"]
 ODDW = ["café", "café", "Å", "Å", "ﬁ", "Ａ", "straße", "İ", "﻿bom", "z‍w", "so­ft", "\U0001f600", "\U0010ffff",
@@ -109,7 +108,7 @@ def call_format_field(name, sep_tok, toks, form, rng):
             return "ok", format_field(formatter=fmt, field_name=name, separator_token=sep_tok, token_iter=arg)
         return "ok", format_field(fmt, name, sep_tok, arg)
     except Exception as ex:      # noqa: BLE001 -- an exception of the library is an observation
-        if not core.raised_by_code_under_test(ex):
+        if not from_repo(ex):
             raise
         return type(ex).__name__, str(ex)
 
@@ -268,7 +267,7 @@ def through_view(name, stream, rng):
             else:
                 lst.value_formatter(fmt, True)
     except Exception as ex:      # noqa: BLE001
-        if not core.raised_by_code_under_test(ex):
+        if not from_repo(ex):
             raise
         return (type(ex).__name__, str(ex)), field
     text = f.dump()
@@ -314,7 +313,7 @@ def token_case(how, tc, rng):
                 src = Deb822ParsedValueElement([K.Deb822ValueToken("a")])
             t = T.from_token_or_element(src)
     except Exception as ex:      # noqa: BLE001
-        if not core.raised_by_code_under_test(ex):
+        if not from_repo(ex):
             raise
         return {"e": type(ex).__name__}
     single = "SPACE" if t is F.SPACE_SEPARATOR_FT else "COMMA" if t is F.COMMA_SEPARATOR_FT else ""
